@@ -33,6 +33,7 @@ RULE = ("Enumerated part: all 256 byte values at odd and at even word "
         "Non-trivial: a completion set was non-empty or an out-of-order "
         "helper call was made. Distinct: event-log digests among non-trivial "
         "runs.")
+RULE += (" Further cases: a third client's nameplate comes and goes during entry (completions compared with the server's latest list); the CLI's readline completer (real _rlcompleter.CodeInputter, harness acting as the user, blockingCallFromThread replaced by call-and-run-the-simulation-until-fired).")
 LEVEL_TEXT = ("Exploration over generated inputs and call histories, with the "
               "byte->word map checked exhaustively (2x256 values). Oracles: "
               "code = server nameplate + '-' + exactly `length` words, one "
@@ -47,7 +48,7 @@ LEVEL_NOTE = ("Uniformity/independence follow from the byte->word bijection "
               "codes without a dash are not judged (the statement names "
               "spaces and non-numeric nameplates only).")
 ASSUMPTIONS = ["os.urandom is uniform (seam replaced by the simulator)"]
-COMPONENTS = {"real": ["PGPWordList", "Code/Input/Lister/Allocator/Nameplate "
+COMPONENTS = {"real": ["wormhole._rlcompleter.CodeInputter (readline case)", "PGPWordList", "Code/Input/Lister/Allocator/Nameplate "
                        "machines", "wormhole_mailbox_server"],
               "stub": ["Autobahn", "TCP/DNS", "SPAKE2 stand-in", "os.urandom "
                        "(scripted)"]}
